@@ -2,8 +2,9 @@
 # tools/seedtest.sh <seed-id> <check-id>... : run checks against a scratch worktree with the seeded
 # change applied (PV_REPO mode; /repo is not touched). Results: seeded/<seed-id>/detect.log
 set -u
-WT=/tmp/wt/confirm
 seedid=$1; shift
+WT=/tmp/wt/confirm
+[ -d /tmp/wt/$seedid ] && WT=/tmp/wt/$seedid
 if [ ! -d $WT ]; then git -C /repo worktree add -q --detach $WT HEAD || exit 2; fi
 cd $WT && git checkout -q -- . && git clean -qfd crates && git checkout -q --detach $(git -C /repo rev-parse HEAD)
 git apply /verif/seeded/$seedid/patch.diff || { echo "APPLY FAILED"; exit 2; }
